@@ -414,18 +414,18 @@ func cdGrammarDiff(a cdAst, ref cdRef, p *girc.Event, before, after time.Time) s
 
 var (
 	cdGCmd     = []string{"PRIVMSG", "NOTICE", "privmsg", "Join", "PING", "MODE", "CAP", "qq", "001", "005", "353", "999", "TAGMSG"}
-	cdGCmdOdd  = []string{"A", "1", "12", "1234", "A1", "", "caf\xc3\xa9", "P-Q"}
-	cdGMid     = []string{"#chan", "nick", "a", "CHANLIMIT=#:120", "x:y", "b\tc", "d\xc2\xa0e", "f\xe2\x80\x83g", "h\vi", "+o", "*", "caf\xc3\xa9", "a:", "a::b", "\x01x", "@x", "!", "=", "\xff", "\x7f", "\x85", "\f"}
-	cdGMidOdd  = []string{"", ":x", "a b", "a\x00", "a\rb", "\n"}
-	cdGTrail   = []string{"", "hello world", ":colon", " :x :y", "tab\there", "nb\xc2\xa0sp", "em\xe2\x80\x83sp", "v\vt", " lead", "trail ", "   ", ":", "x", "\x01ACTION waves\x01", "caf\xc3\xa9 \xe2\x82\xac", "\xff\xfe", "a  b"}
-	cdGTrOdd   = []string{"a\rb", "x\n", "nul\x00", "\r"}
-	cdGName    = []string{"nick", "irc.example.org", "n[i]ck", "N", "caf\xc3\xa9", "a-b", "*", "a:b", "x\ty", "~q"}
-	cdGUser    = []string{"user", "~u", "u!x", "i.d", "!", "a\xc2\xa0b"}
-	cdGHost    = []string{"host.example", "1.2.3.4", "::1", "h/cloak", "a:b", "h"}
+	cdGCmdOdd  = []string{"\xef\xbf\xbdCMD", "P\xef\xbf\xbd", "A", "1", "12", "1234", "A1", "", "caf\xc3\xa9", "P-Q"}
+	cdGMid     = []string{"\xef\xbf\xbd", "a\xef\xbf\xbdb", "\xef\xbf\xbd\xef\xbf\xbd", "\xef\xbf\xbe", "\xef\xbf\xbf", "x\xef\xbf\xbc", "#chan", "nick", "a", "CHANLIMIT=#:120", "x:y", "b\tc", "d\xc2\xa0e", "f\xe2\x80\x83g", "h\vi", "+o", "*", "caf\xc3\xa9", "a:", "a::b", "\x01x", "@x", "!", "=", "\xff", "\x7f", "\x85", "\f"}
+	cdGMidOdd  = []string{"\xef\xbf\xbd\r", "\n\xef\xbf\xbd", "", ":x", "a b", "a\x00", "a\rb", "\n"}
+	cdGTrail   = []string{"\xef\xbf\xbd", "a\xef\xbf\xbdb", "\xef\xbf\xbd\xef\xbf\xbd", "\xef\xbf\xbe", "\xef\xbf\xbf", "x\xef\xbf\xbc", "caf\xef\xbf\xbd au lait", ":\xef\xbf\xbd", "\xef\xbf\xbd\xff", "\xef\xbf", "", "hello world", ":colon", " :x :y", "tab\there", "nb\xc2\xa0sp", "em\xe2\x80\x83sp", "v\vt", " lead", "trail ", "   ", ":", "x", "\x01ACTION waves\x01", "caf\xc3\xa9 \xe2\x82\xac", "\xff\xfe", "a  b"}
+	cdGTrOdd   = []string{"\xef\xbf\xbd\r", "\xef\xbf\xbd\n\xef\xbf\xbd", "a\rb", "x\n", "nul\x00", "\r"}
+	cdGName    = []string{"n\xef\xbf\xbd", "\xef\xbf\xbd", "nick", "irc.example.org", "n[i]ck", "N", "caf\xc3\xa9", "a-b", "*", "a:b", "x\ty", "~q"}
+	cdGUser    = []string{"u\xef\xbf\xbd", "\xef\xbf\xbd", "user", "~u", "u!x", "i.d", "!", "a\xc2\xa0b"}
+	cdGHost    = []string{"h\xef\xbf\xbd", "\xef\xbf\xbe", "host.example", "1.2.3.4", "::1", "h/cloak", "a:b", "h"}
 	cdGSrcOdd  = []string{"", "a b", "a@b", "a!b", "\r", "x\x00"}
 	cdGKey     = []string{"a", "time", "account", "msgid", "example.com/ddd", "a.b/c", "+client", "+example.com/foo", "draft/label", "k-1", "z", "B", "a", "time"}
 	cdGKeyOdd  = []string{"", "+", "k_2", "a=b", "a b", "k;", "caf\xc3\xa9", "++a"}
-	cdGVal     = []string{`C:\new\share`, `\n`, `\r`, `\\s`, `\\n`, `\\:`, `x\`, "", "v", "a b", "a;b", `a\b`, "cr\rlf\n", `; \` + "\r\n", `\\`, `\s`, `\:`, "  ", ";;", "caf\xc3\xa9", "tab\t", "=eq=", `trail\`, "\xff", ":"}
+	cdGVal     = []string{"\xef\xbf\xbd", "a \xef\xbf\xbd;b", "\xef\xbf\xbd\xff", "\xef\xbf\xbf", `C:\new\share`, `\n`, `\r`, `\\s`, `\\n`, `\\:`, `x\`, "", "v", "a b", "a;b", `a\b`, "cr\rlf\n", `; \` + "\r\n", `\\`, `\s`, `\:`, "  ", ";;", "caf\xc3\xa9", "tab\t", "=eq=", `trail\`, "\xff", ":"}
 	cdGTimeVal = []string{"2019-02-21T20:12:03.000Z", "2011-10-19T16:40:51.620Z", "1970-01-01T00:00:00.000Z", "2024-02-29T23:59:59.999Z", "2038-01-19T03:14:08.001Z", "0001-01-01T00:00:00.000Z",
 		"bad", "", "yesterday", "T", "2019-02-30T00:00:00.000Z", "2019-02-21T20:12:03Z", "2019-02-21 20:12:03.000Z", "20190221T201203.000Z"}
 )
